@@ -210,7 +210,7 @@ fn replay(dir: &str) -> i32 {
         "c09" | "c09-plant" => engines::c09::replay(case),
         "c14" => engines::c14::replay(case),
         "c08" => engines::c08::replay(case),
-        "c06" => engines::c06::replay(case),
+        "c06" | "c06-driver" => engines::c06::replay(case),
         "c01" => engines::c01::replay(case),
         "c07" => engines::c07::replay(case),
         "c16" | "c16-disk" => engines::c16::replay(case),
